@@ -66,11 +66,6 @@ theorem valL_lt (ds : List Nat) (h : AllDigits ds) : valL ds < 10 ^ ds.length :=
 
 /-! ### the integer-part loop -/
 
-/-- the loop on natural numbers -/
-def natDigitsRev : Nat → Nat → List Nat
-  | 0, _ => []
-  | fuel + 1, n => if n = 0 then [] else (48 + n % 10) :: natDigitsRev fuel (n / 10)
-
 theorem charOfInt_digit (d : Nat) (h : d ≤ 9) : charOfInt (48 + (d : Int)) = 48 + d := by
   unfold charOfInt; omega
 
